@@ -32,7 +32,6 @@ package pkix
 //@   modifies nothing
 //@   terminates
 //@ func (*AuxOID).UnmarshalJSON
-//@   ensures [smoke] false
 //@   requires aux != nil
 //@   loop 1 invariant fresh(slice) && len(slice) == len(parts) && forall(k, 0, it, slice[k] >= 0)
 //@   ensures result == nil ==> len(*aux) >= 1 && forall(k, 0, len(*aux), (*aux)[k] >= 0)
